@@ -15,7 +15,7 @@ from . import env
 
 NUMF = ("x", "y", "z")
 SELF = ("p", "r")
-FLAVOURS = ("lambda", "def", "str", "named", "cached", "namedcached", "lamdef", "factory")
+FLAVOURS = ("lambda", "def", "str", "named", "cached", "namedcached", "lamdef", "factory", "kwonly")
 LEAF_Q = ("Sum", "Average", "Deviate", "Minimize", "Maximize")
 BINNERS = ("Bin", "SparselyBin", "CentrallyBin", "IrregularlyBin", "Categorize")
 COLLECTIONS = ("Label", "UntypedLabel", "Index", "Branch")
@@ -49,7 +49,7 @@ def qname(node, force=None):
     fl = force or node.get("qf", "lambda")
     if node.get("qf") == "fault":
         return "q"
-    if fl in ("lambda", "cached", "lamdef", "factory"):
+    if fl in ("lambda", "cached", "lamdef", "factory", "kwonly"):
         return None
     if fl == "def":
         return "q_" + node["f"]
@@ -120,6 +120,9 @@ def make_quantity(node, force=None):
         body = _lambda_src(node).split(":", 1)[1].strip()
         exec("def q_%s(d):\n    return %s\n" % (node["f"], body), ns)
         return ns["q_" + node["f"]]
+    if fl == "kwonly" and not (node["k"] == "Bag" and node.get("range") == "N2"):
+        # the field passed as a keyword-only default (`lambda d, *, f=f: d[f]`): kept in __kwdefaults__, not __defaults__
+        return eval("lambda d, *, f=%r: d[f]" % node["f"], ns)
     if fl in ("lamdef", "factory") and not (node["k"] == "Bag" and node.get("range") == "N2"):
         if fl == "lamdef":
             # a default argument that is NaN (the "missing value" idiom); same function of the record
@@ -127,7 +130,7 @@ def make_quantity(node, force=None):
         # the factory idiom `lambda d, f=f: d[f]`: one code object, parametrised through the default
         return eval("lambda d, f=%r: d[f]" % node["f"], ns)
     f = eval(_lambda_src(node), ns)
-    if fl in ("lambda", "lamdef", "factory"):
+    if fl in ("lambda", "lamdef", "factory", "kwonly"):
         return f
     if fl == "named":
         return named("n_" + node["f"], f)
@@ -161,7 +164,12 @@ def build(spec, force=None):
     k = spec["k"]
     if k == "Count":
         if spec.get("t"):
-            return hg.Count(eval(TRANSFORMS_SRC[spec["t"]], {}))
+            tf = eval(TRANSFORMS_SRC[spec["t"]], {})
+            if spec.get("tc"):
+                from histogrammar.util import cached
+
+                tf = cached(tf)
+            return hg.Count(tf)
         return hg.Count()
     if k in LEAF_Q:
         return getattr(hg, k)(make_quantity(spec, force))
@@ -312,7 +320,7 @@ def describe(spec):
     """Compact one-line rendering of a spec (for evidence samples and messages)."""
     k = spec["k"]
     if k == "Count":
-        return "Count" + ("[%s]" % spec["t"] if spec.get("t") else "")
+        return "Count" + ("[%s%s]" % (spec["t"], ",cached" if spec.get("tc") else "") if spec.get("t") else "")
     q = ""
     if "f" in spec:
         q = spec["f"] + ("," + spec["f2"] if "f2" in spec else "") + ":" + spec.get("qf", "lambda")
@@ -465,7 +473,10 @@ def gen_leaf(rng, o, kind=None):
     if k == "Count":
         return {"k": "Count"}
     if k == "CountT":
-        return {"k": "Count", "t": rng.choice(["dbl", "sq"])}
+        n = {"k": "Count", "t": rng.choice(["dbl", "sq"])}
+        if rng.random() < 0.35:
+            n["tc"] = True  # the transform wrapped in cached(): its argument is the weight (a scalar, or the weights array)
+        return n
     if k == "Bag":
         r = rng.choice(o.get("bag_ranges", ("N", "N2", "S")))
         if r == "S":
